@@ -251,6 +251,7 @@ fn lean_cursors(a: &RefAuto, set: &StateSet, probes: &Probes, vocab: &Vocabulary
     out.insert("zz".into());
     let first = candidates(a, set, "", probes);
     let mut level1: BTreeSet<String> = first.must.iter().cloned().collect();
+    let mut inside: BTreeSet<String> = BTreeSet::new();
     // items of every fallback level, not only the winning one
     for (l, _) in a.out_edges(set) {
         match &a.labels[l] {
@@ -262,12 +263,25 @@ fn lean_cursors(a: &RefAuto, set: &StateSet, probes: &Probes, vocab: &Vocabulary
                 let mut one = RefAuto::default();
                 let _ = &mut one;
                 let (c, p) = sub_values(auto, probes, 1, 12);
+                // second items of every `||` level inside the word, typed up to their first
+                // character and completely (the winning level alone hides later branches)
+                let (c2, p2) = sub_values(auto, probes, 2, 24);
+                for v in c2.iter().chain(p2.iter()) {
+                    for pre in c.iter().chain(p.iter()) {
+                        if v.len() > pre.len() && v.starts_with(pre.as_str()) {
+                            let n = pre.chars().count() + 1;
+                            inside.insert(v.chars().take(n).collect());
+                            inside.insert(v.clone());
+                        }
+                    }
+                }
                 level1.extend(c);
                 level1.extend(p);
             }
             RLabel::Star => {}
         }
     }
+    out.extend(inside);
     let level1: Vec<String> = level1.into_iter().collect();
     for c in &level1 {
         let cs: Vec<char> = c.chars().collect();
